@@ -265,6 +265,9 @@ def parse_ohdr(path, addr):
     return msgs
 
 
+INFO_TYPES = (0x15, 0x0F)
+
+
 def go_observables(case, res):
     """per-op result codes (attribute ops only), attribute list of /d, storage form, base from the file"""
     codes = [2 if r.get("panic") else (0 if r.get("ok") else 1) for r in res["results"][1:]]
@@ -275,8 +278,9 @@ def go_observables(case, res):
     if f and obj and os.path.exists(f):
         msgs = parse_ohdr(f, obj["addr"])
         if msgs is not None:
-            form = 1 if any(t == 0x0F for t, _ in msgs) else 0
-            fbase = sum(4 + s for t, s in msgs if t not in (0x0C, 0x0F))
+            # Attribute Info message: type 0x15 (0x0F in trees before dfd678f)
+            form = 1 if any(t in INFO_TYPES for t, _ in msgs) else 0
+            fbase = sum(4 + s for t, s in msgs if t != 0x0C and t not in INFO_TYPES)
     return codes, obj, attrs, form, fbase
 
 
